@@ -490,6 +490,14 @@ fn main() {
     // (b) a double computed by arithmetic (an integer scaled by repeated multiplication by 2 or .5#, so that it goes beyond
     //     2^63 or below 2^-1022): MKD$(X#) is the expected string and CVD(MKD$(X#)) = X#.
     let n_prog = if thorough { 3000 } else { 300 };
+    // the model of CVD (RbModel.Bits.cvd: the pattern, or Overflow when the exponent field is all ones) on the same strings
+    let cvd_reqs: Vec<String> = (0..n_prog)
+        .map(|k| {
+            let w = if k < n_prog / 2 { patterns[(k * 37) % n_structured] } else { patterns[n_structured + k] };
+            format!("(bits.cvd ({}))", le(w).iter().map(|x| x.to_string()).collect::<Vec<_>>().join(" "))
+        })
+        .collect();
+    let cvd_answers = ask(&cvd_reqs);
     for k in 0..n_prog {
         let w = if k < n_prog / 2 { patterns[(k * 37) % n_structured] } else { patterns[n_structured + k] };
         let b = le(w);
@@ -501,6 +509,22 @@ fn main() {
         let out = run_program(&text);
         rep.case(Some(format!("pd{:016x}", w)));
         rep.bump("program.cvd-mkd-bytes");
+        // model vs implementation: CVD raises Overflow exactly where the model does, and answers the pattern otherwise
+        {
+            let overflowed = out.starts_with("runtime-error") && out.contains("Overflow") && out.contains("row: 2");
+            let model = cvd_answers[k].as_str();
+            let agree = if model == "overflow" { overflowed } else { model == format!("(ok {})", w) && !out.starts_with("runtime-error") };
+            if !agree {
+                rep.fail(Failure {
+                    kind: Kind::ModelVsImpl,
+                    signature: "model:cvd".into(),
+                    input: text.clone(),
+                    implementation: out.clone(),
+                    expected: format!("model {}: {}", cvd_reqs[k], model),
+                    note: "RbModel.Bits.cvd: the pattern of the 8 bytes, Overflow when they encode an infinity or a NaN".into(),
+                });
+            }
+        }
         // since /repo 181b08f CVD raises Overflow (6) for the 8-byte strings that encode an infinity or a NaN: a DOUBLE
         // only ever holds a finite number (C06), and C19 claims CVD(MKD$(x)) = x for finite x only
         if (w >> 52) & 0x7ff == 2047 {
